@@ -8,6 +8,13 @@ Streams
         (Spec.Dynamic.DynDesc.assemble: with section headers / e_shoff = 0) → real ELFFile: DynamicSection and
         DynamicSegment of the full image, DynamicSegment of the stripped image; each compared with the Spec's
         observation (property) and with the Lean model of dynamic.py run on the same bytes (correspondence)
+  ext : descriptions outside `DynDesc.wf` (fifth wave): DT_STRTAB removed or pointing outside every PT_LOAD (string table
+        through the section called `.dynstr`, or none: ELFError), hash tags removed or unmapped (the symbol-count
+        fallback: nearest entry value above DT_SYMTAB / end of the covering segment, DT_SYMENT check), DT_SYMTAB
+        unmapped, DT_SYMENT wrong, a table without DT_NULL that is the last thing in the image (ELFParseError) → the
+        same three objects; the parts of the observation a theorem of Props/C09.lean covers (`ext.expect_seg` of the
+        driver's reply) are compared with the real library (property), everything with the model (correspondence).
+        The `ext` comparison is also applied to every `ast` case.
   raw : mutated images (truncation, byte substitutions in the dynamic table / program headers / hash tables / string
         table) → model vs real, errors included
 """
@@ -21,6 +28,9 @@ RULE = ('ast: DynDesc drawn type-directed: cls∈{32,64} × LSB/MSB × 8 machine
         'non-UTF-8 library names; 1..8 symbols with duplicate names; hash ∈ {SysV, GNU, both, none}; reloc tables of 0..3 '
         'entries; blobs placed in random order with random gaps, grouped into 1..3 PT_LOADs (one may sit at vaddr 0) plus '
         'decoy segments; `.dynamic` section at the segment offset or at a second copy; 0..2 decoy sections. '
+        'ext: the same descriptions with one of: DT_STRTAB removed / unmapped; hash tags removed / unmapped (count '
+        'fallback, DT_STRSZ planted at the true end in half of them); DT_SYMTAB unmapped; DT_SYMENT ± 1; no DT_NULL with the '
+        'table moved to the end of the image. '
         'raw: truncations and byte substitutions of those images. Non-trivial = distinct image (every image has ≥ 2 tags).')
 ASSUMPTIONS = ['io.BytesIO semantics', 'str.decode("utf-8", errors="replace") (names are compared after that decoding)',
                'dynamic symbol names are valid UTF-8 (lookup by name is keyed on decoded strings)',
@@ -465,9 +475,213 @@ def check_image(ctx, stream, case, which, r):
                 bad = True
     else:
         ctx.out.count('%s:not-wf' % stream)
+    if not bad:
+        bad = check_ext(ctx, stream, case, which, r, impl)
     if not bad and impl != model:
         ctx.out.violation('correspondence', stream, c, got=impl, model=model)
     return data
+
+
+
+# ---------------------------------------------------------------------------------------------------------------- ext
+EXT_VARIANTS = ['strtab-removed', 'strtab-removed', 'strtab-unmapped', 'nohash', 'nohash-planted', 'nohash-planted',
+                'nohash-segend', 'nohash-segend', 'hash-unmapped', 'symtab-unmapped', 'syment-wrong', 'trunc', 'trunc']
+# tags whose value the reader follows or interprets (left alone when values are neutralised)
+STEERING = {1, 14, 15, 29, 0x6000000f, 5, 6, 7, 17, 23, 36, 2, 8, 9, 18, 19, 20, 35, 37, 11}
+
+
+PROPERTY_DOMS = ('tags:route=', 'syms:hash', 'syms:fallback:exact')
+
+
+def _live_len(tags):
+    for i, (t, _) in enumerate(tags):
+        if t == 0:
+            return i
+    return len(tags)
+
+
+def _mapped(ast, a):
+    for p in ast['segments']:
+        f = dict(p['r'])
+        if f['p_type'] == 1 and f['p_vaddr'] <= a < f['p_vaddr'] + f['p_filesz']:
+            return True
+    return False
+
+
+def _unmapped_addr(rng, ast):
+    cls = ast['cls']
+    loads = [dict(p['r']) for p in ast['segments'] if dict(p['r'])['p_type'] == 1 and dict(p['r'])['p_filesz']]
+    cands = [0x7f000000 + rng.randrange(0x1000), (1 << cls) - 1 - rng.randrange(16), rng.randrange(0x40)]
+    for f in loads:
+        cands += [f['p_vaddr'] + f['p_filesz'], f['p_vaddr'] + f['p_filesz'] + rng.randrange(1, 9)]      # one past the end
+        if f['p_vaddr']:
+            cands.append(f['p_vaddr'] - 1)
+    rng.shuffle(cands)
+    for a in cands:
+        if 0 <= a < (1 << cls) and not _mapped(ast, a):
+            return a
+    return None
+
+
+def _drop_hash(ast):
+    n = _live_len(ast['tags'])
+    for e in ast['tags'][:n]:
+        if e[0] in (TAG['DT_HASH'], TAG['DT_GNU_HASH']):
+            e[0] = 0x12345          # the slot stays (the table keeps its size); the code steers nothing
+    ast['sysv'] = ast['gnu'] = None
+
+
+def gen_ext(rng):
+    """a description of `gen_desc` pushed out of `DynDesc.wf` in one named way"""
+    variant = rng.choice(EXT_VARIANTS)
+    for _ in range(40):
+        ast, names, tagq, meta = gen_desc(rng)
+        # the `.dynstr`-by-name route needs a `.dynamic` section that is NOT at the segment's offset
+        if variant in ('strtab-removed', 'strtab-unmapped') and not meta['copy'] and rng.random() < 0.7:
+            continue
+        break
+    tags = ast['tags']
+    n = _live_len(tags)
+    cls = ast['cls']
+    symsz = 16 if cls == 32 else 24
+    first = {}
+    for i, (t, v) in enumerate(tags[:n]):
+        first.setdefault(t, i)
+    if variant == 'strtab-removed':
+        for e in tags[:n]:
+            if e[0] == TAG['DT_STRTAB']:
+                e[0] = 0x12345
+    elif variant == 'strtab-unmapped':
+        a = _unmapped_addr(rng, ast)
+        if a is not None and TAG['DT_STRTAB'] in first:
+            tags[first[TAG['DT_STRTAB']]][1] = a
+    elif variant in ('nohash', 'nohash-planted'):
+        _drop_hash(ast)
+        if variant == 'nohash-planted' and TAG['DT_SYMTAB'] in first:
+            # DT_STRSZ (never read) carries a value in [true end, true end + one record): the fallback is exact unless
+            # another entry's value lies strictly inside the table's address range
+            a = tags[first[TAG['DT_SYMTAB']]][1]
+            end = a + len(ast['syms']) * symsz + rng.randrange(symsz)
+            if end < (1 << cls):
+                for e in tags[:n]:
+                    if e[0] == TAG['DT_STRSZ']:
+                        e[1] = end
+                    elif a < e[1] < end and e[0] not in (TAG['DT_NEEDED'], TAG['DT_SONAME'], TAG['DT_RPATH'], TAG['DT_RUNPATH'],
+                                                           TAG['DT_SUNW_FILTER'], TAG['DT_STRTAB'], TAG['DT_SYMTAB']):
+                        e[1] = rng.choice([0, a])
+    elif variant == 'nohash-segend':
+        # nothing in the table points above the symbol table (as far as the steering tags allow): the end of the
+        # covering program header decides; a decoy header that ENDS at the table's address, or an empty PT_LOAD that
+        # starts there, competes (any type counts, end included, last one wins)
+        _drop_hash(ast)
+        if TAG['DT_SYMTAB'] in first:
+            a = tags[first[TAG['DT_SYMTAB']]][1]
+            for e in tags[:n]:
+                if e[1] > a and e[0] in (7, 17, 23, 36):
+                    e[0] = 0x12345          # the relocation tables go out of sight (their pointers lie above)
+                if e[1] > a and e[0] not in STEERING:
+                    e[1] = rng.choice([0, a])
+            decoys = [p for p in ast['segments']
+                      if dict(p['r'])['p_type'] not in (1, 2) or (dict(p['r'])['p_type'] == 1 and dict(p['r'])['p_filesz'] == 0)]
+            if decoys and rng.random() < 0.7:
+                p = rng.choice(decoys)
+                f = p['r']
+                k = 0 if dict(f)['p_type'] == 1 else rng.choice([0, 1, 8, 0x40])
+                if k <= a:
+                    for kv in f:
+                        if kv[0] == 'p_vaddr':
+                            kv[1] = a - k
+                        elif kv[0] == 'p_filesz':
+                            kv[1] = k
+                    if rng.random() < 0.7:          # … behind the real one, so that it is the last to match
+                        ast['segments'].remove(p)
+                        ast['segments'].append(p)
+    elif variant == 'hash-unmapped':
+        for t in (TAG['DT_HASH'], TAG['DT_GNU_HASH']):
+            if t in first:
+                a = _unmapped_addr(rng, ast)
+                if a is not None:
+                    tags[first[t]][1] = a
+    elif variant == 'symtab-unmapped':
+        if rng.random() < 0.7:
+            _drop_hash(ast)
+        a = _unmapped_addr(rng, ast)
+        if a is not None and TAG['DT_SYMTAB'] in first:
+            if rng.random() < 0.8:
+                tags[first[TAG['DT_SYMTAB']]][1] = a
+            else:
+                tags[first[TAG['DT_SYMTAB']]][0] = 0x12345
+    elif variant == 'syment-wrong':
+        if rng.random() < 0.8:
+            _drop_hash(ast)
+        for e in tags[:n]:
+            if e[0] == TAG['DT_SYMENT']:
+                e[1] = symsz + rng.choice([1, -1, 8])
+    elif variant == 'trunc':
+        # no terminator, nothing after it either: the table becomes the last thing in the image (placed by `finish_trunc`
+        # once the length of the images is known)
+        del tags[n:]
+        ast['secDynOff'] = None
+        meta = dict(meta, copy=False)
+    meta = dict(meta, variant=variant)
+    return ast, names, tagq, meta
+
+
+def finish_trunc(ast, length, rng):
+    """move the (unterminated) table behind everything else: `length` = size of the larger image"""
+    dynsz = 2 * ast['cls'] // 8
+    off = length + rng.choice([0, 0, 1, 8])
+    ast['dynOff'] = off
+    for p in ast['segments']:
+        f = p['r']
+        if dict(f)['p_type'] == 2:
+            for kv in f:
+                if kv[0] == 'p_offset':
+                    kv[1] = off
+                elif kv[0] in ('p_filesz', 'p_memsz'):
+                    kv[1] = len(ast['tags']) * dynsz + rng.choice([0, 0, dynsz, 3])
+
+
+def check_ext(ctx, stream, case, which, r, impl):
+    """the parts of the segment view a theorem covers outside `DynDesc.wf` (and inside it: same answer)"""
+    ext = r.get('ext')
+    if not ext:
+        return False
+    for dlabel in ext['dom']:
+        ctx.out.count('%s:%s:%s' % (stream, which, dlabel))
+    exps = norm(ext.get('expect_sec') or {})
+    if exps:
+        # the `DynamicSection` view: the section link serves the strings whatever the table says about DT_STRTAB
+        ctx.out.count('%s:%s:sec:tags' % (stream, which))
+        try:
+            sec = impl['ok']['sec']['ok']
+        except (KeyError, TypeError):
+            sec = None
+        gots = {k: (sec.get(k) if isinstance(sec, dict) else None) for k in exps}
+        if gots != exps:
+            c = dict(case)
+            c['layout'] = which
+            ctx.out.violation('property', stream, c, expect=exps, got=gots, note='ext: DynamicSection')
+            return True
+    exp = norm(ext['expect_seg'])
+    if not exp:
+        return False
+    try:
+        seg = impl['ok']['seg']['ok']
+    except (KeyError, TypeError):
+        seg = None
+    got = {k: (seg.get(k) if isinstance(seg, dict) else None) for k in exp}
+    if got != exp:
+        c = dict(case)
+        c['layout'] = which
+        # what the property itself states (entries and strings, symbols and count — the described truth) counts as a
+        # property violation; estimates and exception classes are statements about the code as it is (theorems about
+        # the model): there a difference is a model / library disagreement
+        stated = all(d.startswith(PROPERTY_DOMS) for d in ext['dom'])
+        ctx.out.violation('property' if stated else 'correspondence', stream, c, expect=exp, got=got,
+                          note='ext: ' + ','.join(ext['dom']))
+        return True
+    return False
 
 
 def run_ast(ctx):
@@ -504,6 +718,45 @@ def run_ast(ctx):
             if meta['zero']: ctx.out.count('ast:load-at-vaddr-0')
             if meta['solaris']: ctx.out.count('ast:solaris')
     return seeds
+
+
+
+def run_ext(ctx):
+    rng = ctx.rng('ext')
+    n = ctx.budget(130, 1800)
+    cases = [gen_ext(rng) for _ in range(n)]
+    # trunc: the table goes behind everything else; the image lengths come from the assembler
+    tr = [c for c in cases if c[3]['variant'] == 'trunc']
+    B = 150
+    for i in range(0, len(tr), B):
+        replies = ctx.driver.ask_many([{'p': 'C09', 'k': 'len', 'ast': a} for a, _, _, _ in tr[i:i + B]])
+        for (a, _, _, meta), r in zip(tr[i:i + B], replies):
+            if 'fatal' in r:
+                raise RuntimeError('driver: %s' % r['fatal'])
+            if r.get('full') is None or r.get('stripped') is None:
+                meta['variant'] = 'trunc-unplaced'
+                continue
+            finish_trunc(a, max(r['full'], r['stripped']), rng)
+    reqs = [{'p': 'C09', 'k': 'ast', 'ast': a, 'names': nm, 'tagq': tq} for a, nm, tq, _ in cases]
+    for i in range(0, len(reqs), B):
+        if ctx.time_left() < 12:
+            ctx.out.notes.append('ext: stopped at %d/%d for time' % (i, len(reqs)))
+            break
+        replies = ctx.driver.ask_many(reqs[i:i + B])
+        for (a, nm, tq, meta), r in zip(cases[i:i + B], replies):
+            if 'fatal' in r:
+                raise RuntimeError('driver: %s' % r['fatal'])
+            case = {'ast': a, 'names': nm, 'tagq': tq}
+            for which in ('full', 'stripped'):
+                rr = r[which]
+                if 'bytes' not in rr:
+                    ctx.out.count('ext:not-encodable')
+                    continue
+                data = check_image(ctx, 'ext', case, which, rr)
+                ctx.out.case({'sha': hx(data[:96]), 'n': len(data), 'which': which, 'tags': a['tags'], 'v': meta['variant']})
+                if not rr['ext']['dom']:
+                    ctx.out.count('ext:%s:%s:no-theorem-domain' % (meta['variant'], which))
+            ctx.out.count('ext:variant=' + meta['variant'])
 
 
 def too_big(data):
@@ -589,6 +842,7 @@ def _non_utf8_symbol_names(impl, model):
 
 def run(ctx):
     seeds = run_ast(ctx)
+    run_ext(ctx)
     if seeds:
         run_raw(ctx, seeds)
 
@@ -596,9 +850,9 @@ def run(ctx):
 def replay(ctx, payload):
     v = payload['violation']
     case = v['case']
-    if v['stream'] == 'ast':
+    if v['stream'] in ('ast', 'ext'):
         r = ctx.driver.ask({'p': 'C09', 'k': 'ast', 'ast': case['ast'], 'names': case['names'], 'tagq': case['tagq']})
-        out = {'stream': 'ast', 'fails': False}
+        out = {'stream': v['stream'], 'fails': False}
         for which in ('full', 'stripped'):
             rr = r[which]
             if 'bytes' not in rr:
@@ -611,6 +865,20 @@ def replay(ctx, payload):
             if rr['wf'] and which == 'full' and not fails:
                 ds = norm(run_impl(lambda: dynsym_section_symbols(data)))
                 fails = ds != expect['ok']['seg']['ok']['symbols']
+            exps = norm(rr.get('ext', {}).get('expect_sec') or {})
+            if exps and not fails:
+                try:
+                    sec = impl['ok']['sec']['ok']
+                except (KeyError, TypeError):
+                    sec = None
+                fails = {k: (sec.get(k) if isinstance(sec, dict) else None) for k in exps} != exps
+            exp = norm(rr.get('ext', {}).get('expect_seg') or {})
+            if exp and not fails:
+                try:
+                    seg = impl['ok']['seg']['ok']
+                except (KeyError, TypeError):
+                    seg = None
+                fails = {k: (seg.get(k) if isinstance(seg, dict) else None) for k in exp} != exp
             out[which] = {'bytes': rr['bytes'], 'wf': rr['wf'], 'impl': impl, 'expect': expect, 'model': model, 'fails': fails}
             out['fails'] = out['fails'] or fails
         return out
